@@ -64,7 +64,7 @@ theorem step_pk (c : Cfg F G) (ephs : List (List F)) (hw : WellFormed c ephs) (i
   rw [recvPk_eq]
   apply finish_event c ephs hw i hi _ st (keyPk x :: sp) sd sr (orElse gpk (handlePeerMsg dupPk m.pkP x).2) gdl grs
   refine ⟨h.hn, h.hidx, h.hlong, h.hf, h.hephs, hstep, h.pdl, h.prs, ?_, h.hsd, h.hsr, h.hfail, h.hst, ?_, h.hdl, h.hrs,
-    h.hwd, h.hwr, h.hsent⟩
+    h.hwd, h.hwr, h.hsent, h.hreach⟩
   · intro y hy; rcases List.mem_cons.1 hy with hy | hy
     · rw [hy]; exact hkey
     · exact h.hsp y hy
@@ -89,7 +89,7 @@ theorem step_dl (c : Cfg F G) (ephs : List (List F)) (hw : WellFormed c ephs) (i
   rw [recvDeal_eq]
   apply finish_event c ephs hw i hi _ st sp (keyDl x :: sd) sr gpk (orElse gdl (handlePeerMsg dupDeal m.dlP x).2) grs
   refine ⟨h.hn, h.hidx, h.hlong, h.hf, h.hephs, h.ppk, hstep, h.prs, h.hsp, ?_, h.hsr, h.hfail, h.hst, h.hpk, ?_, h.hrs,
-    h.hwd, h.hwr, h.hsent⟩
+    h.hwd, h.hwr, h.hsent, h.hreach⟩
   · intro y hy; rcases List.mem_cons.1 hy with hy | hy
     · rw [hy]; exact hkey
     · exact h.hsd y hy
@@ -116,7 +116,7 @@ theorem step_rs (c : Cfg F G) (ephs : List (List F)) (hw : WellFormed c ephs) (i
   rw [recvResp_eq]
   apply finish_event c ephs hw i hi _ st sp sd (keyRs x :: sr) gpk gdl (orElse grs (handlePeerMsg dupResp m.rsP x).2)
   refine ⟨h.hn, h.hidx, h.hlong, h.hf, h.hephs, h.ppk, h.pdl, hstep, h.hsp, h.hsd, ?_, h.hfail, h.hst, h.hpk, h.hdl, ?_,
-    h.hwd, h.hwr, h.hsent⟩
+    h.hwd, h.hwr, h.hsent, h.hreach⟩
   · intro y hy; rcases List.mem_cons.1 hy with hy | hy
     · rw [hy]; exact hkey
     · exact h.hsr y hy
@@ -150,7 +150,7 @@ def afterStart (m : Member F G) (p0 : Pair (PkMsg G)) (p1 : Pair (DkgDeal F G)) 
 theorem start_eq (g : G) (m : Member F G) (h : m.stage = .idle) :
     Member.start g m = Member.advance g 4 (afterStart m (handleRequest m.pkP (m.n - 1)).1 (handleRequest m.dlP (m.n - 1)).1
       (handleRequest m.rsP ((m.n - 1) * (m.n - 1))).1 (handleRequest m.pkP (m.n - 1)).2 (handleRequest m.dlP (m.n - 1)).2
-      (handleRequest m.rsP ((m.n - 1) * (m.n - 1))).2 ⟨m.index, some (m.long • g)⟩) := by
+      (handleRequest m.rsP ((m.n - 1) * (m.n - 1))).2 ⟨m.index, some (m.long • g), m.index⟩) := by
   unfold Member.start
   simp only [h]
   rfl
@@ -191,7 +191,8 @@ theorem step_start (c : Cfg F G) (ephs : List (List F)) (hw : WellFormed c ephs)
     rw [start_eq c.g m hidle, h.hn]
     apply finish_event c ephs hw i hi _ true sp sd sr _ _ _
     refine ⟨h.hn, h.hidx, h.hlong, h.hf, h.hephs, s0, s1, s2, h.hsp, h.hsd, h.hsr, by simp [afterStart, stageRank],
-      by simp [afterStart, stageRank], ?_, ?_, ?_, ?_, ?_, ?_⟩
+      by simp [afterStart, stageRank], ?_, ?_, ?_, ?_, ?_, ?_,
+      ⟨fun d hd => (by cases hd), fun d hd => (by cases hd), fun d ks hd => (by cases hd)⟩⟩
     · exact ⟨fun _ => rfl, fun hh => by simp [afterStart, stageRank] at hh⟩
     · exact ⟨fun _ => rfl, fun hh => by simp [afterStart, stageRank] at hh⟩
     · exact ⟨fun _ => rfl, fun hh => by simp [afterStart, stageRank] at hh⟩
@@ -199,7 +200,7 @@ theorem step_start (c : Cfg F G) (ephs : List (List F)) (hw : WellFormed c ephs)
     · intro d hd; cases hd
     · refine ⟨fun hh => by simp [afterStart, stageRank] at hh, fun _ => ?_, fun hh => by simp [afterStart, stageRank] at hh,
         fun hh => by simp [afterStart, stageRank] at hh⟩
-      show m.sent ++ [Sent.pk ⟨m.index, some (m.long • c.g)⟩] = _
+      show m.sent ++ [Sent.pk ⟨m.index, some (m.long • c.g), m.index⟩] = _
       rw [h.hsent.1 hrank, h.hidx, h.hlong]; rfl
   · rw [start_noop c.g m hidle]
     obtain ⟨gpk, gdl, grs, h, hq⟩ := h
